@@ -341,3 +341,23 @@ Theorem step_col_stopped_spec sc st :
   cs_obs (step_col_stopped sc st) = cs_obs st /\ cs_start (step_col_stopped sc st) = cs_start st /\
   cs_cur (step_col_stopped sc st) = fst (vstep1 sc (cs_cur st)).
 Proof. repeat split. Qed.
+
+(* ------------------------------------------------------------------ model mutation score: the list comparator *)
+(* qclose_all accepts exactly the lists of the same length whose entries are pairwise close *)
+Theorem qclose_all_spec rel abs : forall ms is_,
+  qclose_all rel abs ms is_ = true <-> Forall2 (fun m i => qclose rel abs m i = true) ms is_.
+Proof.
+  induction ms as [|m ms IH]; intros [|i is_]; cbn [qclose_all]; split; intros H;
+    try discriminate H; try (inversion H; fail); try constructor.
+  - apply andb_true_iff in H. exact (proj1 H).
+  - apply andb_true_iff in H. apply IH. exact (proj2 H).
+  - inversion H; subst. apply andb_true_iff. split; [assumption | apply IH; assumption].
+Qed.
+
+Example qclose_all_pins :
+  qclose_all (1 # 1000) (1 # 1000) [1; 2 # 3]%Q [1; 2 # 3]%Q = true /\
+  qclose_all (1 # 1000) (1 # 1000) []%Q []%Q = true /\
+  qclose_all (1 # 1000) (1 # 1000) [1; 2 # 3]%Q [1; 3 # 4]%Q = false /\
+  qclose_all (1 # 1000) (1 # 1000) [1; 2]%Q [1]%Q = false /\
+  qclose_all (1 # 1000) (1 # 1000) [1]%Q [1; 2]%Q = false.
+Proof. vm_compute. repeat split; reflexivity. Qed.
